@@ -57,10 +57,10 @@ func TestLikeTransform(t *testing.T) {
 	va := lineFilterLikeVariants[0]
 	q := func(p string) string { return "SELECT 1 WHERE like(s, " + p + ") == 1" }
 	ok := []struct{ lit, v string }{
-		{`'%a\\\\b%'`, `a\b`},   // LIKE pattern %a\\b%
-		{`'%a\\b%'`, `a\b`},     // LIKE pattern %a\b% : backslash before an ordinary byte is literal too
-		{`'%100\\%%'`, `100%`},  // pattern %100\%%
-		{`'%100\%%'`, `100%`},   // ClickHouse keeps the backslash of \% in a literal
+		{`'%a\\\\b%'`, `a\b`},  // LIKE pattern %a\\b%
+		{`'%a\\b%'`, `a\b`},    // LIKE pattern %a\b% : backslash before an ordinary byte is literal too
+		{`'%100\\%%'`, `100%`}, // pattern %100\%%
+		{`'%100\%%'`, `100%`},  // ClickHouse keeps the backslash of \% in a literal
 		{`'%it\'s\'%'`, `it's'`},
 		{`'%a\\_b%'`, `a_b`},
 	}
@@ -89,14 +89,14 @@ func TestLikeTransform(t *testing.T) {
 
 func TestRegexpStandIn(t *testing.T) {
 	for in, want := range map[string]string{
-		`abc`:          `x`,
-		`a(b)c`:        `x(x)x`,
-		`a\(b`:         `x`,
-		`(?P<n>a.b)c`:  `(?P<n>x)x`,
-		`a)b(`:         `x)x(`,
-		"a\nb":         `x`,
-		`a>b`:          `x`,
-		`'\`:           `x`, // the trailing backslash swallows the closing bracket: the request is refused
+		`abc`:         `x`,
+		`a(b)c`:       `x(x)x`,
+		`a\(b`:        `x`,
+		`(?P<n>a.b)c`: `(?P<n>x)x`,
+		`a)b(`:        `x)x(`,
+		"a\nb":        `x`,
+		`a>b`:         `x`,
+		`'\`:          `x`, // the trailing backslash swallows the closing bracket: the request is refused
 	} {
 		if got := regexpStandIn(in, "x"); got != want {
 			t.Errorf("regexpStandIn(%q) = %q, want %q", in, got, want)
